@@ -597,6 +597,31 @@ def run_c12(ctx):
                      'Duration(): either floor(a)+floor(b) or floor(a+b) is accepted', 'pack_header_field is outside the statement'])
 
 
+DESC_KINDS = ['ac3', 'avc', 'component', 'content', 'dsa', 'eac3', 'extevent', 'extension', 'extensionsa', 'iso639', 'lto', 'maxbitrate', 'netname',
+              'parental', 'pdi', 'pds', 'registration', 'service', 'shortevent', 'streamid', 'subtitling', 'teletext', 'vbiteletext', 'vbidata', 'unknown', 'user']
+
+
+def run_c14(ctx):
+    build_harness(ctx)
+    quick = ctx.tier == 'quick'
+    model_check(ctx, 'DescProps', 'DescProps.cfg', workers=4)
+    sd = ctx.seed
+    scs = []
+    for k in DESC_KINDS:
+        scs.append({'sid': 'desc-%s' % k, 'kind': 'desc', 'part': 'pertag', 'tag': k, 'seed': sd, 'n': 120 if quick else 2500})
+    for i in range(8 if quick else 64):
+        scs.append({'sid': 'desc-loops-%d' % i, 'kind': 'desc', 'part': 'loops', 'seed': sd * 71 + i, 'n': 120 if quick else 600})
+        scs.append({'sid': 'desc-mal-%d' % i, 'kind': 'desc', 'part': 'malformed', 'seed': sd * 73 + i, 'n': 150 if quick else 800})
+    return pipeline(
+        ctx, 'Mon_C14', 'desc', scs,
+        rule='per tag (23 typed descriptors incl. both teletext tags and the supplementary-audio extension, unknown tags, user-defined): seeded values with '
+             'every flag random, numeric fields at 0 / max / single-bit / random, variable parts of length 0, 1, mid, max-fit, 0..6 loop items, the '
+             'struct Length set correctly / to 0 / wrongly; loops of 0..4 mixed descriptors; malformed middle descriptors (shorter, longer, zero) with '
+             'sentinels. Writer bytes = Descriptors!LoopWithLength(values) (TLC); parser on those bytes = values',
+        assumptions=['a descriptor whose body is empty parses to a descriptor without typed body (equal to the value with zero items)',
+                     'ISO 639 language descriptor: one (language, audio type) entry, as the library models it'])
+
+
 PROPS = {
     'C01': lambda ctx: run_mux_family(ctx, 'C01'),
     'C04': lambda ctx: run_mux_family(ctx, 'C04'),
@@ -614,4 +639,5 @@ PROPS = {
     'C15': run_c15,
     'C11': run_c11,
     'C12': run_c12,
+    'C14': run_c14,
 }
